@@ -245,8 +245,8 @@ def check_history(ops, impl, ports):
         got_m = [g for g in got if kind(g[0])]
         if got_e != exp['exact']:
             return n, 'exact dispatcher invoked (responder, function) %s, the property demands %s' % (got_e, exp['exact'])
-        if sorted(got_m) != sorted(exp['matching']):
-            return n, 'matching dispatcher invoked (responder, function) %s, the property demands %s (any path order)' % (got_m, sorted(exp['matching']))
+        if got_m != exp['matching']:
+            return n, 'matching dispatcher invoked (responder, function) %s, the property demands %s (registration order)' % (got_m, exp['matching'])
     return None
 
 
